@@ -1080,3 +1080,72 @@ def _caller_names_used_as_patterns(filters: list, modules: list[Node]) -> list[s
 
 def unsafe_names_used_as_patterns(pattern_to_match: str, name: str) -> bool:
     return re.match(pattern_to_match, name) is not None
+
+
+# ----------------------------------------------------------------------------- a prefix that ends with the separator on some paths only
+
+
+def _helper_prefix_with_separator_on_one_branch(root: Node, path_diff: Node) -> str:
+    prefix = root + "."
+    if path_diff != ".":
+        prefix += path_diff
+    return prefix
+
+
+def _helper_prefix_with_separator_on_every_branch(root: Node, path_diff: Node) -> str:
+    prefix = root + "."
+    if path_diff != ".":
+        prefix += path_diff + "."
+    return prefix
+
+
+def unsafe_relies_on_separator_of_one_branch(module: Node, root: Node, path_diff: Node) -> bool:
+    prefix = _helper_prefix_with_separator_on_one_branch(root, path_diff)
+    if module == prefix.rstrip("."):
+        return True
+    return module.startswith(prefix)
+
+
+def safe_relies_on_separator_of_every_branch(module: Node, root: Node, path_diff: Node) -> bool:
+    prefix = _helper_prefix_with_separator_on_every_branch(root, path_diff)
+    if module == prefix.rstrip("."):
+        return True
+    return module.startswith(prefix)
+
+
+def _helper_is_below_dotted(module: str, dotted_prefix: str) -> bool:
+    return module.startswith(dotted_prefix)
+
+
+def _caller_passes_separator_at_every_call_site(module: Node, first: Node, second: Node) -> bool:
+    return safe_prefix_dotted_at_every_call_site(module, first + ".") or safe_prefix_dotted_at_every_call_site(module, f"{second}.")
+
+
+def safe_prefix_dotted_at_every_call_site(module: str, dotted_prefix: str) -> bool:
+    return module.startswith(dotted_prefix)
+
+
+def _caller_passes_separator_at_one_call_site(module: Node, first: Node, second: Node) -> bool:
+    return unsafe_prefix_dotted_at_one_call_site_only(module, first + ".") or unsafe_prefix_dotted_at_one_call_site_only(module, second)
+
+
+def unsafe_prefix_dotted_at_one_call_site_only(module: str, dotted_prefix: str) -> bool:
+    return module.startswith(dotted_prefix)
+
+
+def safe_prefix_reassigned_with_separator(module: Node, other: Node) -> bool:
+    prefix = other
+    prefix = prefix + "."
+    return module.startswith(prefix)
+
+
+def unsafe_separator_appended_on_one_path_only(module: Node, other: Node, nested: bool) -> bool:
+    prefix = other
+    if nested:
+        prefix = prefix + "."
+    return module.startswith(prefix)
+
+
+def safe_parameter_normalised_by_assignment(module: Node, prefix: str) -> bool:
+    prefix = prefix.rstrip(".") + "."
+    return module + "." == prefix or module.startswith(prefix)
